@@ -6,7 +6,7 @@ usage: tools_benign.py [name-prefix ...]"""
 import json, os, re, shutil, subprocess, sys, tempfile
 ROOT = os.path.dirname(os.path.abspath(__file__))
 VENV_PY = os.path.join(ROOT, ".venv/bin/python")
-REPORT = os.path.join(ROOT, "benign", "report.json")
+REPORT = os.environ.get("BENIGN_REPORT") or os.path.join(ROOT, "benign", "report.json")
 BENIGN = os.path.join(ROOT, "benign")
 # the run takes a while: work on a snapshot of the machinery so that edits made meanwhile do not interfere
 SNAP = tempfile.mkdtemp(prefix="pvc_benign_snap_")
